@@ -525,25 +525,23 @@ parse_loop!(c05_parse_loop_total_1, 1);
 parse_loop!(c05_parse_loop_total_2, 2);
 
 // ------------------------------------------------------------------ C17 H-span / C11 H-break-dir (token level)
-/// one statement `NOT r r` (or RET) with arbitrary increasing token spans, optionally preceded by .break: the
-/// statement's span runs from its first token to the end of its last consumed operand; .break marks the
-/// statement's index and emits no word.  parse_instr is replaced by the NOT / RET case: two registers through
-/// the *real* expect_reg (which is what records where the last operand ends), no operand for RET -- going through
-/// the real 20-way match with the mnemonic read back from the token vector costs more than 20 min (measured).
+/// Statement span arithmetic in parse(): a statement's span runs from its first token to the end of its last
+/// consumed operand, or over the first token alone when it has no operand (also right after an operand-ful
+/// statement); .break marks the statement's index and produces no word.  parse_instr is replaced by its
+/// contract towards parse(): "operands consumed up to byte E" (it sets tok_end = E >= end of the mnemonic) or
+/// "no operand" (tok_end untouched, left over from an earlier statement: any value <= the mnemonic's offset).
+/// That expect()/expect_where() record the end of each consumed operand is c17_tok_end_recorded.
+static mut SPAN_E: Option<usize> = None;
 impl AsmParser {
-    fn parse_instr_not_or_ret(&mut self, kind: InstrKind) -> Result<AirStmt> {
-        match kind {
-            InstrKind::Ret => Ok(AirStmt::Return),
-            _ => {
-                let dest = self.expect_reg()?;
-                let src_reg = self.expect_reg()?;
-                Ok(AirStmt::Not { dest, src_reg })
-            }
+    fn parse_instr_span_contract(&mut self, _kind: InstrKind) -> Result<AirStmt> {
+        if let Some(e) = unsafe { SPAN_E } {
+            self.tok_end = e;
         }
+        Ok(AirStmt::Return)
     }
 }
 macro_rules! span_harness {
-    ($name:ident, $with_break:expr, $operandless:expr) => {
+    ($name:ident, $with_break:expr) => {
         #[kani::proof]
         #[kani::unwind(6)]
         #[kani::stub(alloc::fmt::format, stubs::fmt_format)]
@@ -552,55 +550,67 @@ macro_rules! span_harness {
         #[kani::stub(crate::error::parse_lit_range, lit_range_contract)]
         #[kani::stub(crate::error::parse_eof, eof_contract)]
         #[kani::stub(crate::error::parse_duplicate_label, dup_label_contract)]
-        #[kani::stub(AsmParser::parse_instr, AsmParser::parse_instr_not_or_ret)]
+        #[kani::stub(AsmParser::parse_instr, AsmParser::parse_instr_span_contract)]
         fn $name() {
             let o0: usize = kani::any();
             let l0: usize = kani::any();
-            let o1: usize = kani::any();
-            let l1: usize = kani::any();
-            let o2: usize = kani::any();
-            let l2: usize = kani::any();
-            kani::assume(l0 >= 1 && l1 >= 1 && l2 >= 1 && o0 < 100 && l0 < 100 && l1 < 100 && l2 < 100);
-            kani::assume(o1 >= o0 + l0 && o1 < 300 && o2 >= o1 + l1 && o2 < 600);
-            let mut toks = Vec::new();
+            kani::assume(l0 >= 1 && o0 < 1000 && l0 < 100);
+            let has_operands: bool = kani::any();
+            let e: usize = kani::any();
+            let earlier_end: usize = kani::any();
+            kani::assume(e >= o0 + l0 && e < 2000 && earlier_end <= o0);
+            unsafe {
+                SPAN_E = if has_operands { Some(e) } else { None };
+            }
+            let mut toks = Vec::with_capacity(2);
             if $with_break {
                 toks.push(Token::breakpoint(span_of(0, 0)));
             }
-            if $operandless {
-                toks.push(Token::new(TokenKind::Instr(InstrKind::Ret), span_of(o0, l0)));
-            } else {
-                toks.push(Token::new(TokenKind::Instr(InstrKind::Not), span_of(o0, l0)));
-                toks.push(Token::new(TokenKind::Reg(Register::R1), span_of(o1, l1)));
-                toks.push(Token::new(TokenKind::Reg(Register::R2), span_of(o2, l2)));
-            }
-            let p = parser_over(toks, 1);
+            toks.push(Token::new(TokenKind::Instr(InstrKind::Ret), span_of(o0, l0)));
+            let mut p = parser_over(toks, 1);
+            p.tok_end = earlier_end;
             match p.parse() {
                 Ok(air) => {
-                    assert!(air.len() == 1, "a .break or an operand produced a word of its own");
+                    assert!(air.len() == 1, "a .break produced a word of its own");
                     let sp = air.get(0).span;
                     assert!(sp.offs() == o0, "statement span does not start at its first token");
-                    let want_end = if $operandless { o0 + l0 } else { o2 + l2 };
-                    assert!(sp.end() == want_end, "statement span does not end at its last operand");
+                    let want_end = if has_operands { e } else { o0 + l0 };
+                    assert!(sp.end() == want_end, "statement span does not end at its last operand (or at the mnemonic when it has none)");
                     if $with_break {
                         assert!(air.breakpoints.len() == 1 && crate::debugger::verif_h::bp_addr_at(&air.breakpoints, 0) == 0
-                            && crate::debugger::verif_h::bp_predefined_at(&air.breakpoints, 0));
+                            && crate::debugger::verif_h::bp_predefined_at(&air.breakpoints, 0), ".break does not mark the next statement");
                     } else {
                         assert!(air.breakpoints.len() == 0);
                     }
-                    kani::cover!(o1 > o0 + l0 + 3);
+                    kani::cover!(has_operands && e > o0 + l0 + 3);
+                    kani::cover!(!has_operands && earlier_end > 0);
                     core::mem::forget(air);
                 }
-                Err(e) => {
-                    core::mem::forget(e);
+                Err(err) => {
+                    core::mem::forget(err);
                     assert!(false, "well-formed statement rejected");
                 }
             }
         }
     };
 }
-span_harness!(c17_span_not, false, false);
-span_harness!(c17_span_break_not, true, false);
-span_harness!(c17_span_ret, false, true);
+span_harness!(c17_span_statement, false);
+span_harness!(c17_span_break_statement, true);
+
+/// expect_reg / expect record where the consumed operand ends (what parse() builds statement spans from)
+parse_attrs! { fn c17_tok_end_recorded() {
+    let o: usize = kani::any();
+    let l: usize = kani::any();
+    kani::assume(o < 1000 && l < 100);
+    let use_label: bool = kani::any();
+    let tok = if use_label { Token::new(TokenKind::Label, span_of(o, l)) } else { Token::new(TokenKind::Reg(any_register()), span_of(o, l)) };
+    let mut p = parser_over(vec![tok], 1);
+    let ok = if use_label { p.expect(TokenKind::Label).is_ok() } else { p.expect_reg().is_ok() };
+    assert!(ok && p.tok_end == o + l, "end of the consumed operand not recorded");
+    kani::cover!(use_label);
+    kani::cover!(!use_label);
+    core::mem::forget(p);
+}}
 
 // ------------------------------------------------------------------ C15: the contract of parse_simple
 // parse_simple = read the first token, dispatch to parse_instr / parse_trap with *that token's* mnemonic,
